@@ -66,6 +66,27 @@ CLAIMED.update({
     },
 })
 
+CLAIMED.update({
+    "C12": {
+        "text": "Heap model of LinearScale objects (spec/LinScale.tla: list cells, snapshots, in-place nice, copy) model-checked by TLC over all call "
+                "histories up to a bound (EndpointsMap invariant, CopyIndependent action property; the shared-list variant gives a counterexample); "
+                "every maximal TLC history is replayed on real scales and validated step by step; the functional laws (exact end points, affine, "
+                "monotone, inverse, clamp) are evaluated by TLC in exact BigNat arithmetic on grid instances embedded at decades 1e-6..1e9.",
+        "note": "Float behaviour is reached through embedded lattice instances and random samples, not by enumerating doubles.",
+        "technique": "TLA+ heap/history model + TLC; TLC-generated histories replayed into the code; trace validation with exact arithmetic",
+        "design_ref": "DESIGN.md section 8 (C12)",
+    },
+    "C13": {
+        "text": "TLC proves the tick-step, completeness and count-bound laws on every integer domain of a grid x every m (spec/LinTicks.tla, scale-free "
+                "in powers of ten), and evaluates the declarative predicates (step form, multiples, in-domain, complete, count bounds, labels distinct "
+                "and reading back) on tick lists and labels observed from LinearScale.ticks/tickFormat at decades 1e-6..1e9 and on random floats.",
+        "note": "Floats are projected to integers in units of a thousandth of the step; the step's (mantissa, exponent) is a harness-proposed "
+                "certificate validated by TLC.",
+        "technique": "TLA+ tick model checked exhaustively by TLC; trace validation of ticks()/tickFormat() records",
+        "design_ref": "DESIGN.md section 8 (C13)",
+    },
+})
+
 NOT_YET = "check not built yet in this round; planned with the TLA+ specification described in DESIGN.md section 8"
 
 
